@@ -33,6 +33,7 @@ mod g_reader;
 mod g_tsig;
 mod g_writer;
 mod g_server;
+mod g_srvtsig;
 mod g_zonefile;
 mod g_include;
 mod g_pool;
@@ -69,6 +70,7 @@ fn main() {
             "tsig" => g_tsig::gen(&mut rng, thorough, &mut em),
             "writer" => g_writer::gen(&mut rng, thorough, &mut em),
             "server" => g_server::gen(&mut rng, thorough, &mut em),
+            "srvtsig" => g_srvtsig::gen(&mut rng, thorough, &mut em),
             "serverdbg" => g_server::debug_big(&mut rng),
             "zonefile" => g_zonefile::gen(&mut rng, thorough, &mut em),
             "include" => g_include::gen(&mut rng, thorough, &mut em),
@@ -136,6 +138,9 @@ pub fn run_case(case: &str) -> String {
         return r;
     }
     if let Some(r) = g_server::run(op, &args) {
+        return r;
+    }
+    if let Some(r) = g_srvtsig::run(op, &args) {
         return r;
     }
     if let Some(r) = g_zonefile::run(op, &args) {
